@@ -120,6 +120,13 @@ def IS_READ(result, d, lookup, visitors, allow):
     return result == READ(d, lookup, visitors, allow)
 
 
+def SAME_OPT_OBJ(a, b):
+    """identity of two Optional[object] values (`is`)"""
+    if smt():
+        return OR(AND(IS_NONE(a), IS_NONE(b)), AND(NOT(IS_NONE(a)), NOT(IS_NONE(b)), lambda: VAL(a).ref == VAL(b).ref))
+    return a is b
+
+
 def DEF_EQ(a, b):
     """`==` between definitions: same full name and same version (DSDLDefinition.__eq__)"""
     return AND(EQ(NAME(a), NAME(b)), EQ(VERSION(a), VERSION(b)))
@@ -267,7 +274,7 @@ class _IfRead:
                                s.allow_unregulated_fixed_port_id)}
 
     # termination measure of the mutual recursion read -> parse -> resolve_versioned_data_type -> read
-    decreases = staticmethod(lambda s: (LEN(FILTER(s.lookup_definitions, lambda d: NOT(DEF_EQ(d, s.self)))), 2))
+    decreases = staticmethod(lambda s: (LEN(FILTER(s.lookup_definitions, lambda d: NOT(DEF_EQ(d, s.self)), strict=True)), 2))
 
 
 # ------------------------------------------------------------------------------------------------ C09-1 resolution
@@ -325,11 +332,189 @@ class _Resolve:
     decreases = staticmethod(lambda s: (LEN(s.self._lookup_definitions), 0))
 
 
+# ------------------------------------------------------------------------------------------------ C09-2 read
+SCHEMA_BUILDER = "pydsdl._data_schema_builder.DataSchemaBuilder"
+
+
+@class_spec(SCHEMA_BUILDER)
+class _SchemaBuilderSpec:
+    fields = {}
+
+
+inline_ok(SCHEMA_BUILDER + ".__init__", why="constructor that only initialises empty containers / flags")
+
+
+def FINALIZED(builder):
+    """Call tag of DataTypeBuilder.finalize: the composite that finalizing this builder object yields."""
+    if smt():
+        return speclib.CTX.engine.uf("ghost!finalize", RefSort, RefSort)(builder.ref)
+    return None
+
+
+@contract(BUILDER + ".__init__", props=P)
+class _BuilderInit:
+    params = dict(definition=ObjOf(READABLE), lookup_definitions=SeqOf(ObjOf(READABLE)),
+                  definition_visitors=SeqOf(ObjOf(VISITOR)), print_output_handler=HANDLER,
+                  allow_unregulated_fixed_port_id=Bool)
+
+    def post(s):
+        b = s.self
+        return {
+            "definition": SAME_OBJ(b._definition, s.definition),
+            "lookup-copied": SAME_SEQ(b._lookup_definitions, s.lookup_definitions),
+            "visitors": SAME_SEQ(b._definition_visitors, s.definition_visitors),
+            "flag": EQ(b._allow_unregulated_fixed_port_id, s.allow_unregulated_fixed_port_id),
+        }
+
+
+@contract(BUILDER + ".finalize", props=["C09", "C03", "C05"])
+class _Finalize:
+    """Assumed here (the construction of the composite from the collected statements is the subject of C03/C05):
+    returns a composite - tagged by the builder's construction arguments - or raises."""
+    returns = ObjOf(COMPOSITE)
+    may_raise = ["Error", "Exception"]
+    verify = False
+    assumed = "DataTypeBuilder.finalize: subject of C03/C05; here only `returns a composite or raises`"
+
+    def post(s):
+        return {"tag": s.result.ref == FINALIZED(s.self) if smt() else True}
+
+
+@contract(PARSER + "parse", props=["C09", "C03", "C13"])
+class _Parse:
+    """Assumed: the parser drives the statement stream processor it was given (and nothing else); any exception of a
+    callback or of the grammar may escape.  Termination: it calls back only into the given processor."""
+    params = dict(text=Str, statement_stream_processor=ObjOf(BUILDER), strict=Bool)
+    may_raise = ["Error", "Exception"]
+    verify = False
+    assumed = ("_parser.parse (parsimonious grammar + visitor): invokes methods of the given statement stream processor "
+               "only; may raise anything")
+    decreases = staticmethod(lambda s: (LEN(s.statement_stream_processor._lookup_definitions), 1))
+
+
+@contract(DSDLDEF + ".text", props=["C09", "C19"])
+class _Text:
+    """Assumed (file system): returns the text of the file, loading it on first use."""
+    returns = Str
+    may_raise = ["OSError", "UnicodeDecodeError"]
+    modifies = ["_text"]
+    verify = False
+    assumed = "DSDLDefinition.text opens and reads the file (file system: out of reach); caches it in _text"
+
+
+def _first(entries):
+    return entries[0] if entries else None
+
+
+@contract(DSDLDEF + ".read", props=P)
+class _Read:
+    params = dict(lookup_definitions=SeqOf(ObjOf(READABLE)), definition_visitors=SeqOf(ObjOf(VISITOR)),
+                  print_output_handler=HANDLER, allow_unregulated_fixed_port_id=Bool, strict=Bool)
+    returns = ObjOf(COMPOSITE)
+    may_raise = ["Error"]  # InvalidDefinitionError / InternalError; nothing else (see noraise obligations)
+    decreases = _IfRead.decreases
+
+    @staticmethod
+    def _frame(s):
+        o, d = s.old, s.self
+        return AND(EQ(d._name, o._name), EQ(d._version, o._version), EQ(d._file_path, o._file_path),
+                   EQ(d._root_namespace_path, o._root_namespace_path), EQ(d._fixed_port_id, o._fixed_port_id))
+
+    def post(s):
+        d, o = s.self, s.old
+        hit = NOT(IS_NONE(o._cached_type))
+        clauses = {
+            # cache transparency: once set, the cached composite is returned unchanged and nothing is touched
+            "cache-hit-returns-cached": IMPLIES(hit, lambda: AND(SAME_OBJ(s.result, VAL(o._cached_type)),
+                                                                 SAME_OPT_OBJ(d._cached_type, o._cached_type),
+                                                                 EQ(d._text, o._text))),
+            "miss-fills-cache": IMPLIES(NOT(hit), lambda: AND(NOT(IS_NONE(d._cached_type)),
+                                                               SAME_OBJ(VAL(d._cached_type), s.result))),
+            "identity-unchanged": _Read._frame(s),
+        }
+        if smt():
+            clauses.update(_Read._protocol(s, hit))
+        return clauses
+
+    @staticmethod
+    def _protocol(s, hit):
+        """On a cache miss (SMT reading only - the native reading cannot observe calls): one builder is constructed for
+        *this* definition with the given lookup list minus this definition (no self reference) and the given visitors /
+        flag; the definition's own text is parsed into that builder; the result is what finalizing that builder yields."""
+        from pyvc.speclib import CALLS
+
+        parses, fins, texts = CALLS("_parser.parse"), CALLS("DataTypeBuilder.finalize"), CALLS("DSDLDefinition.text")
+        inits = CALLS("DataTypeBuilder.__init__")
+        if not parses and not fins and not inits:
+            return {"protocol-only-on-miss": hit if not isinstance(hit, bool) else z3.BoolVal(hit)}
+        ok = (len(parses) == 1 and len(fins) == 1 and len(texts) == 1 and len(inits) == 1
+              and inits[0]["index"] < parses[0]["index"] < fins[0]["index"] and texts[0]["index"] < parses[0]["index"])
+        if not ok:
+            return {"protocol-order": z3.BoolVal(False)}
+        builder, a = inits[0]["ns"].self, inits[0]["ns"]
+        d = s.self
+        return {
+            "builder-for-this-definition": SAME_OBJ(a.definition, d),
+            "builder-lookup-excludes-self": SAME_SEQ(a.lookup_definitions,
+                                                     FILTER(s.lookup_definitions, lambda x: NOT(DEF_EQ(x, d)))),
+            "builder-visitors-and-flag": AND(SAME_SEQ(a.definition_visitors, s.definition_visitors),
+                                             EQ(a.allow_unregulated_fixed_port_id, s.allow_unregulated_fixed_port_id)),
+            "parses-own-text-into-builder": AND(SAME_OBJ(parses[0]["ns"].statement_stream_processor, builder),
+                                                SAME_OBJ(texts[0]["ns"].self, d),
+                                                EQ(parses[0]["ns"].text, texts[0]["result"]),
+                                                EQ(parses[0]["ns"].strict, s.strict)),
+            "returns-finalized-builder": AND(SAME_OBJ(fins[0]["ns"].self, builder), s.result.ref == FINALIZED(builder)),
+        }
+
+    # whenever an exception escapes, the cache is as it was (never a half-built type), identity untouched
+    raises_post = {
+        "BaseException": lambda s: {"cache-unchanged": SAME_OPT_OBJ(s.self._cached_type, s.old._cached_type),
+                                    "identity-unchanged": _Read._frame(s)},
+    }
+
+
+def RESULT_IS(result, clause, otherwise):
+    """`result` is the boolean value of `clause()`; a NotImplemented result is allowed exactly when `otherwise` holds"""
+    if smt():
+        from pyvc.values import Sentinel
+
+        if isinstance(result, Sentinel):
+            return otherwise
+        return AND(NOT(otherwise), IFF(result, clause()))
+    if result is NotImplemented:
+        return otherwise
+    return (not otherwise) and result == bool(clause())
+
+
+@contract(DSDLDEF + ".__eq__", props=P)
+class _DefEq:
+    params = dict(other=ObjOf(READABLE))
+
+    def post(s):
+        return {"same-name-and-version": RESULT_IS(s.result, lambda: DEF_EQ(s.self, s.other), NOT(ISINST(s.other, DSDLDEF)))}
+
+
+def KEY_HASH(name, version):
+    """hash of the key (full name, version): a function of exactly these two values"""
+    if smt():
+        c = speclib.CTX
+        return c.engine.lib.bi_hash(c, (name, version))
+    return hash((name, version))
+
+
+@contract(DSDLDEF + ".__hash__", props=P)
+class _DefHash:
+    def post(s):
+        # equal definitions (same name and version) have equal hashes: the hash is a function of that key only
+        return {"function-of-the-eq-key": s.result == KEY_HASH(NAME(s.self), VERSION(s.self))}
+
+
 # ------------------------------------------------------------------------------------------------ native harness
 from pyvc.native import NativeSuite
 
 NATIVE = NativeSuite()
 LEVEL = "proof"
+LEAN = ["Filter.lean"]
 
 
 def _stub_classes():
@@ -383,11 +568,22 @@ _NAMES = ["ns.A", "ns.a", "ns.B", "ns.sub.A", "NS.A", "other.A", "ns.K", "ns.K
 
 
 def _gen_resolve(rng, i):
-    n = rng.choice([0, 1, 2, 2, 3, 4])
-    lookup = [[rng.choice(_NAMES), [rng.choice([0, 1, 1, 2]), rng.choice([0, 1])], rng.random() < 0.1] for _ in range(n)]
     own = rng.choice(["ns.Self", "ns.sub.Self", "other.Self", "Top"])
     name = rng.choice(["A", "a", "B", "ns.A", "ns.a", "Ns.A", "ns.sub.A", "other.A", "K", "ns.C"])
-    return {"own": own, "lookup": lookup, "name": name, "version": [rng.choice([0, 1, 1, 2]), rng.choice([0, 1])],
+    version = [rng.choice([0, 1, 1, 2]), rng.choice([0, 1])]
+    full = name if "." in name else ".".join(own.split(".")[:-1] + [name])
+    n = rng.choice([0, 1, 2, 2, 3, 4])
+    lookup = []
+    for _ in range(n):
+        r = rng.random()
+        if r < 0.45:    # a (near) match: same name up to letter case, mostly the same version
+            nm = rng.choice([full, full, full.lower(), full.upper(), full.swapcase()])
+            v = list(version) if rng.random() < 0.8 else [version[0], 1 - version[1]]
+        else:
+            nm = rng.choice(_NAMES)
+            v = [rng.choice([0, 1, 1, 2]), rng.choice([0, 1])]
+        lookup.append([nm, v, rng.random() < 0.1])
+    return {"own": own, "lookup": lookup, "name": name, "version": version,
             "allow": rng.random() < 0.5, "visitors": rng.choice([0, 1, 2])}
 
 
@@ -406,6 +602,136 @@ def _build_resolve(desc):
 
 
 NATIVE.add(BUILDER + ".resolve_versioned_data_type", _gen_resolve, _build_resolve)
+
+# -- real DSDLDefinition objects over a scratch directory (removed at exit)
+_SCRATCH = {"dir": None}
+
+
+def _scratch_dir():
+    import atexit
+    import shutil
+    import tempfile
+
+    if _SCRATCH["dir"] is None:
+        _SCRATCH["dir"] = tempfile.mkdtemp(prefix="c09-native-")
+        atexit.register(shutil.rmtree, _SCRATCH["dir"], True)
+    return _SCRATCH["dir"]
+
+
+_TYPE_NAMES = ["A", "B", "C"]
+
+
+def _gen_namespace(rng, i):
+    """A small root namespace `ns`: each file has a list of references (possibly to itself, cyclic, missing, or by a
+    name that differs by letter case) and possibly an error of its own."""
+    files = []
+    for nm in _TYPE_NAMES[: rng.choice([1, 2, 3, 3])]:
+        for ver in rng.sample([(1, 0), (1, 1), (2, 0)], rng.choice([1, 1, 2])):
+            refs = []
+            for _ in range(rng.choice([0, 0, 1, 1, 2])):
+                refs.append([rng.choice(_TYPE_NAMES + ["ns.A", "ns.B", "a", "Missing"]), list(rng.choice([(1, 0), (1, 1), (2, 0)]))])
+            files.append({"name": nm, "version": list(ver), "refs": refs, "bad": rng.random() < 0.1})
+    return {"files": files, "target": rng.randrange(len(files)), "pre_read": rng.random() < 0.3,
+            "drop_self_from_lookup": rng.random() < 0.2}
+
+
+def _materialise(desc):
+    import os
+    from pathlib import Path
+    from pydsdl._dsdl_definition import DSDLDefinition
+
+    root = Path(_scratch_dir()) / ("n%d" % (abs(hash(repr(desc))) % 10 ** 12)) / "ns"
+    os.makedirs(root, exist_ok=True)
+    defs = []
+    for f in desc["files"]:
+        p = root / ("%s.%d.%d.dsdl" % (f["name"], f["version"][0], f["version"][1]))
+        lines = ["%s.%d.%d f%d" % (r[0], r[1][0], r[1][1], k) for k, r in enumerate(f["refs"])]
+        if f["bad"]:
+            lines.append("@assert false")
+        lines.append("@sealed")
+        p.write_text("\n".join(lines) + "\n")
+        defs.append(DSDLDefinition(p, root))
+    return defs
+
+
+def _snapshot(d):
+    from types import SimpleNamespace
+
+    return SimpleNamespace(_cached_type=d._cached_type, _text=d._text, _name=d._name, _version=d._version,
+                           _file_path=d._file_path, _root_namespace_path=d._root_namespace_path,
+                           _fixed_port_id=d._fixed_port_id)
+
+
+def _build_read(desc):
+    defs = _materialise(desc)
+    target = defs[desc["target"]]
+    lookup = [d for d in defs if not (desc["drop_self_from_lookup"] and d is target)]
+    handler = lambda line, text: None
+    if desc["pre_read"]:
+        try:
+            target.read(lookup, [], handler, True)
+        except Exception:
+            pass
+    ns = {"self": target, "lookup_definitions": lookup, "definition_visitors": [], "print_output_handler": handler,
+          "allow_unregulated_fixed_port_id": True, "strict": False, "old": _snapshot(target)}
+    return (lambda: target.read(lookup, [], handler, True)), ns
+
+
+NATIVE.add(DSDLDEF + ".read", _gen_namespace, _build_read)
+
+
+def _gen_pair(rng, i):
+    return {"a": [rng.choice(["A", "B"]), list(rng.choice([(1, 0), (1, 1)]))],
+            "b": [rng.choice(["A", "B"]), list(rng.choice([(1, 0), (1, 1)]))], "other_kind": rng.random() < 0.15,
+            "legacy": rng.random() < 0.3}
+
+
+def _pair(desc):
+    import os
+    from pathlib import Path
+    from pydsdl._dsdl_definition import DSDLDefinition
+
+    out = []
+    for k, key in enumerate(("a", "b")):
+        root = Path(_scratch_dir()) / ("p%d" % k) / "ns"
+        os.makedirs(root, exist_ok=True)
+        ext = "uavcan" if (desc["legacy"] and k == 1) else "dsdl"
+        p = root / ("%s.%d.%d.%s" % (desc[key][0], desc[key][1][0], desc[key][1][1], ext))
+        p.write_text("@sealed\n")
+        out.append(DSDLDefinition(p, root))
+    return out
+
+
+def _build_eq(desc):
+    a, b = _pair(desc)
+    other = "not a definition" if desc["other_kind"] else b
+    return (lambda: a.__eq__(other)), {"self": a, "other": other}
+
+
+def _build_hash(desc):
+    a, b = _pair(desc)
+    return (lambda: a.__hash__()), {"self": a}
+
+
+NATIVE.add(DSDLDEF + ".__eq__", _gen_pair, _build_eq)
+NATIVE.add(DSDLDEF + ".__hash__", _gen_pair, _build_hash)
+
+
+def _build_builder_init(desc):
+    from pydsdl._data_type_builder import DataTypeBuilder
+
+    StubDefinition, StubVisitor = _stub_classes()
+    own = StubDefinition(desc["own"], (1, 0))
+    lookup = [StubDefinition(n, tuple(v), f) for n, v, f in desc["lookup"]]
+    visitors = [StubVisitor() for _ in range(desc["visitors"])]
+    handler = lambda line, text: None
+    return (lambda: DataTypeBuilder(own, lookup, visitors, handler, desc["allow"])), {
+        "definition": own, "lookup_definitions": lookup, "definition_visitors": visitors,
+        "print_output_handler": handler, "allow_unregulated_fixed_port_id": desc["allow"]}
+
+
+NATIVE.add(BUILDER + ".__init__", _gen_resolve, _build_builder_init)
+NATIVE_BUDGET = {"quick": 150, "thorough": 2000}
 
 NOT_COVERED = []
 EXPLANATION = ""
